@@ -147,7 +147,7 @@ class MementoFunction(MementoFunctionBase):
     def hash_rules(self) -> List[HashRule]:
         """Ordered list of hash rules from which the hash was computed"""
         self._update_dependencies()
-        return self._hash_rules
+        return [rule for rule in self._hash_rules if not rule.watch_only]
 
     explicit_version = None  # type: Optional[str]
     _calculated_version = None  # type: Optional[str]
